@@ -15,13 +15,16 @@ RULE = ('(a) handler level: documents from a grammar of Junos-style replies (pla
         'the attribute, unknown id, no listener, no message-id); each document is also fed to expat in 1- and 7-byte pieces. '
         '(b) whole path: streams of 1-2 pipelined replies (with/without filter, plain/nc:, white space between) under every '
         'single cut; thorough adds all double cuts within windows round start tags and delimiters, all double cuts of two short '
-        'streams, byte-wise feeding and random multi-cuts. A case is distinct by (document, filter, request kind) resp. '
+        'streams, byte-wise feeding and random multi-cuts; replies optionally begin with an XML declaration; (d) streams with one reply that is not '
+        'well-formed (expat rejects / the DOM parser cannot dispatch and stays). Every cut run is also replayed on the extracted driver model '
+        '(coq/Model/JunosParse.v) and compared after every read. A case is distinct by (document, filter, request kind) resp. '
         '(stream, filters, cuts); non-trivial = the request has a filter and the document has at least one kept and one '
         'dropped element, or the stream is cut.')
-ASSUMES = ['expat delivers the SAX events of the byte stream fed so far, independent of how it was fed, with raw qualified names',
+ASSUMES = ['expat delivers the SAX events of the byte stream fed so far, independent of how it was fed, with raw qualified names (pyexpat 2.5.0: no reparse deferral)',
+           'driver model: the octets the SAX handler writes never contain "]]>" (they are kept apart from the delimiter search); NETCONF 1.0 framing; the verdict of Session._dispatch_message on a DOM message (does parse_root find a root) and the per-octet events of expat are oracles supplied by the harness',
            'lxml Element.find(tag, namespaces) / getparent / builder.E behave as modelled (first child by Clark tag, SyntaxError on unknown prefix, ValueError on prefixed tag)',
            'the filter is given as a string (a fresh tree per reply); an Element filter object is mutated by the wrapper step',
-           'byte-level recovery (_delimiter_check, only reached for input that is not well-formed XML) is not modelled']
+           'byte-level recovery (_delimiter_check, only reached for input that is not well-formed XML) is not modelled: the driver model ends in an explicit Stuck state there and the comparison stops at that read']
 TRUSTED = ['modelled, not verified: expat, lxml, difflib; DefaultXMLParser._parse10 (C01) is used as is for the hand-over',
            'the rendering of the handler output to bytes (render) is tied to the code by the correspondence only; the projection theorem speaks about output events']
 ALLOWED_AXIOMS = []
@@ -263,7 +266,15 @@ def gen_stream(rng, n_replies=None, linked=False):
 XML_DECL = b'<?xml version="1.0" encoding="UTF-8"?>'
 def _doc_bytes(case, i):
     H, G = _H()
-    return (XML_DECL if case.get('decl') and case['decl'][i] else b'') + G.ser(_tup(case['docs'][i])).encode()
+    d = _tup(case['docs'][i])
+    if case.get('corrupt') == i and case.get('corrupt_kind') == 'nons':
+        # nc:rpc-reply without a declaration of the prefix: expat (no namespace processing) accepts it, lxml does not
+        d = ('E', 'nc:rpc-reply', [a for a in d[2] if a[0] != 'xmlns:nc'], d[3])
+    b = G.ser(d).encode()
+    if case.get('corrupt') == i and case.get('corrupt_kind') != 'nons':
+        # an element that is never closed: not well-formed from the reply's end tag on
+        b = b.replace(b'</rpc-reply>', b'<oops></rpc-reply>').replace(b'</nc:rpc-reply>', b'<oops></nc:rpc-reply>')
+    return (XML_DECL if case.get('decl') and case['decl'][i] else b'') + b
 
 def stream_bytes(case):
     H, G = _H()
@@ -395,6 +406,28 @@ def check_path_case(ctx, case, cutsets):
     ctx.evaluations -= 1
     ctx.hist('path_runs', 'cut runs', n)
 
+def check_malformed_case(ctx, case, cutsets):
+    """A stream with one reply that is not well-formed.  Request without filter: the DOM parser cannot dispatch it and
+    stays; what every request gets must still not depend on the cuts (oracle: equal to the uncut run), and the driver model
+    follows read by read.  Request with filter: expat rejects, _delimiter_check takes over: outside the model (the model
+    says so: Stuck), compared up to that read only."""
+    stream = stream_bytes(case)
+    filtered = case['filters'][case['corrupt']] is not None
+    runs, base = [], None
+    for cuts in cutsets:
+        res, log = run_path_obs(case, cuts)
+        runs.append((cuts, log))
+        if base is None: base = res
+        elif not filtered and res != base:
+            ctx.fail(dict(case, cuts=list(cuts)), 'stream with a malformed reply to a request without filter: results depend on the cuts %s' % (cuts,),
+                     sig=None, expected=[list(r)[:1] for r in base], actual=[list(r)[:1] for r in res])
+            break
+    check_driver_model(ctx, case, stream, runs)
+    ctx.evaluations += len(runs); ctx.traces += len(runs)
+    ctx.hist('path_malformed', 'expat rejects (filter)' if filtered else
+             ('DOM message without a root lxml accepts (no filter): the DOM parser stays' if case.get('corrupt_kind') == 'nons'
+              else 'DOM message not well-formed after its start tag (no filter)'), len(runs))
+
 def load_corpus():
     out = []
     d = os.path.join(os.path.dirname(os.path.dirname(os.path.dirname(os.path.abspath(__file__)))), 'corpus', 'C18')
@@ -443,6 +476,14 @@ def run(ctx):
         L = len(stream_bytes(case))
         check_path_case(ctx, case, [[]] + [sorted(rng.sample(range(1, L), min(L - 1, 3))) for _ in range(2)])
         ctx.hist('path_linked', 'histories')
+    # (d) one reply of the stream is not well-formed
+    for k in range(40 if thorough else 10):
+        case = gen_stream(rng, n_replies=2 + k % 2)
+        case['corrupt'] = k % len(case['docs'])
+        if k % 2 == 0: case['filters'][case['corrupt']] = None
+        if k % 4 == 0: case['corrupt_kind'] = 'nons'
+        L = len(stream_bytes(case))
+        check_malformed_case(ctx, case, [[]] + [[c] for c in range(1, L, 1 if thorough else 3)])
     if thorough:
         # all double cuts of two short streams (two adjacent replies, filter/no filter)
         for k in range(2):
